@@ -491,6 +491,10 @@ class PoolMetricsStream(Stream):
 #        ComponentPoolStatus object whose sets are mutated in place and which is re-sent, as the SDK's
 #        ComponentPoolStatusTracker does), "tracker" (the real ComponentPoolStatusTracker feeding the channel,
 #        driven through scripted per-battery status trackers: one message per battery whose status changes)
+#   "consumers": n  = number of BatteryPool instances sharing the ONE BatteryPoolReferenceStore (as
+#        microgrid.new_battery_pool does for equal battery sets); a request OP names its consumer: "who": k
+#   "tz": None | ["offset", minutes] | ["zone", name] = time zone of the component data timestamps; None keeps the
+#        fixed 2020 UTC stamps, otherwise the stamps are the current instant expressed in that (aware, non-UTC) zone
 #   a status OP may carry "uncertain": [ids]; ComponentPoolStatus.get_working_components falls back to the
 #   uncertain batteries when none of the pool's batteries is working
 #   D  = {"cap": V, "lo": V, "hi": V, "soc": V}      V = [num, den] | "nan"      (None = silent at start)
@@ -549,7 +553,7 @@ def snapshots(case):
             w = set(op["working"]) & set(case["pool"])
             st["working"] = w if w else (set(op.get("uncertain", [])) - set(op["working"])) & set(case["pool"])
         elif k == "request":
-            requested.add(op["what"])
+            requested.add(f"{op['what']}@{op.get('who', 0)}")
         elif k == "data":
             last[op["id"]] = dict(op["d"])
             silent.discard(op["id"])
@@ -619,7 +623,18 @@ def run_pool(case):
             batteries_status_receiver=status.new_receiver(limit=1), power_manager_requests_sender=unused.new_sender(),
             power_manager_bounds_subscription_sender=unused.new_sender(), power_distribution_results_fetcher=unused,
             min_update_interval=I.timedelta(seconds=0.2), batteries_id=set(pool_ids))
-        pool = I.BatteryPool(pool_ref_store=store, name="verif", priority=5, set_operating_point=False)
+        pools = [I.BatteryPool(pool_ref_store=store, name=f"verif{k}", priority=k + 1, set_operating_point=False)
+                 for k in range(case.get("consumers", 1))]
+        tzspec = case.get("tz")
+        if tzspec is None:
+            stamp = lambda: BASE_TS + I.timedelta(seconds=loop.time())
+        else:
+            if tzspec[0] == "offset":
+                tz = timezone(I.timedelta(minutes=tzspec[1]))
+            else:
+                from zoneinfo import ZoneInfo
+                tz = ZoneInfo(tzspec[1])
+            stamp = lambda: datetime.now(tz=timezone.utc).astimezone(tz)
         cur = {int(k): (None if v is None else dict(v)) for k, v in case["init"].items()}
         silent = {b for b, v in cur.items() if v is None}
         senders = {b: api.chan(b).new_sender() for b in pool_ids}
@@ -630,7 +645,7 @@ def run_pool(case):
             if b in silent or d is None:
                 return
             await senders[b].send(I.BatteryData(
-                component_id=b, timestamp=BASE_TS + I.timedelta(seconds=loop.time()),
+                component_id=b, timestamp=stamp(),
                 soc=val(d["soc"]), soc_lower_bound=val(d["lo"]), soc_upper_bound=val(d["hi"]), capacity=val(d["cap"]),
                 power_inclusion_lower_bound=-1000.0, power_exclusion_lower_bound=0.0,
                 power_inclusion_upper_bound=1000.0, power_exclusion_upper_bound=0.0, temperature=20.0,
@@ -642,7 +657,7 @@ def run_pool(case):
                     await send_now(b)
                 await aio.sleep(PERIOD)
 
-        logs = {"soc": [], "capacity": []}
+        logs = {}
         tasks = [aio.create_task(streamer())]
         producer = case.get("producer", "fresh")
         shared = I.ComponentPoolStatus(working=set(), uncertain=set())      # "mutate": the one object that is re-sent
@@ -677,12 +692,12 @@ def run_pool(case):
                         state[b] = want
                         await scripted[b].sender.send(I.ComponentStatus(b, want))
 
-        async def collect(what, rx):
+        async def collect(key, rx):
             async for smp in rx:
                 v = smp.value
                 if v is not None:
-                    v = v.as_percent() if what == "soc" else v.as_watt_hours()
-                logs[what].append([round(loop.time(), 3), None if v is None else enc(to_frac(v))])
+                    v = v.as_percent() if key.startswith("soc") else v.as_watt_hours()
+                logs[key].append([round(loop.time(), 3), None if v is None else enc(to_frac(v))])
 
         checkpoints = []
         try:
@@ -691,9 +706,12 @@ def run_pool(case):
                 if k == "status":
                     await send_status(op)
                 elif k == "request":
-                    if not any(t.get_name() == op["what"] for t in tasks):
-                        fetcher = pool.soc if op["what"] == "soc" else pool.capacity
-                        tasks.append(aio.create_task(collect(op["what"], fetcher.new_receiver()), name=op["what"]))
+                    key = f"{op['what']}@{op.get('who', 0)}"
+                    if key not in logs:
+                        bp = pools[op.get("who", 0)]
+                        fetcher = bp.soc if op["what"] == "soc" else bp.capacity
+                        logs[key] = []
+                        tasks.append(aio.create_task(collect(key, fetcher.new_receiver()), name=key))
                 elif k == "data":
                     cur[op["id"]] = dict(op["d"])
                     silent.discard(op["id"])
@@ -718,8 +736,7 @@ def run_pool(case):
             for op in case["script"]:
                 await do(op)
                 await aio.sleep(SETTLE)
-                checkpoints.append({w: (["none-yet"] if not logs[w] else [logs[w][-1][1]]) for w in ("soc", "capacity")
-                                    if any(t.get_name() == w for t in tasks)})
+                checkpoints.append({w: (["none-yet"] if not logs[w] else [logs[w][-1][1]]) for w in sorted(logs)})
         finally:
             for t in tasks:
                 t.cancel()
@@ -812,6 +829,27 @@ def gen_pool_case(rng):
     if rng.random() < 0.3:  # sometimes drop one of the requests / move it to the very end
         i = next(k for k, o in enumerate(script) if o["op"] == "request")
         script.append(script.pop(i))
+    consumers = rng.choice([1, 1, 2, 2, 3])
+    if consumers > 1:
+        reqs = [o for o in script if o["op"] == "request"] + [x for o in script if o["op"] == "burst" for x in o["ops"] if x["op"] == "request"]
+        for o in reqs:
+            o["who"] = rng.randrange(consumers)
+        # the same metric requested by another pool instance on the same store, at any point of the script
+        for _ in range(rng.randint(1, 2)):
+            o = rng.choice(reqs)
+            other = rng.choice([k for k in range(consumers) if k != o["who"]])
+            script.insert(rng.randint(0, len(script)), {"op": "request", "what": o["what"], "who": other})
+        if rng.random() < 0.7:
+            script.append({"op": "status", "working": subset()})
+    r = rng.random()
+    tz = None if r < 0.45 else (["offset", rng.choice([120, 60, 330, 765, 540, -300, -480, -210])] if r < 0.8
+                                else ["zone", rng.choice(["Europe/Berlin", "Asia/Kolkata", "America/New_York", "Australia/Sydney"])])
+    if tz is not None and rng.random() < 0.7:
+        # something must change after the first samples for a stalled stream to show
+        b = rng.choice(pool)
+        script.append({"op": "data", "id": b, "d": gen_d(False)})
+        script.append({"op": "status", "working": subset()})
+
     def add_uncertain(ops):
         for o in ops:
             if o["op"] == "burst":
@@ -821,7 +859,7 @@ def gen_pool_case(rng):
                 if rng.random() < 0.5:
                     o["working"] = []
     add_uncertain(script)
-    return {"pool": pool, "init": init, "script": script, "producer": producer}
+    return {"pool": pool, "init": init, "script": script, "producer": producer, "consumers": consumers, "tz": tz}
 
 
 def pool_boundary_cases():
@@ -834,6 +872,21 @@ def pool_boundary_cases():
 
 
 def _pool_boundary_cases():
+    yield from _pool_boundary_cases0()
+    D = lambda cap, lo, hi, soc: {"cap": enc(F(cap)), "lo": enc(F(lo)), "hi": enc(F(hi)), "soc": enc(F(soc))}
+    init = {"5": D(1000, 10, 90, 50), "8": D(3000, 10, 90, 90)}
+    R = lambda w, k: {"op": "request", "what": w, "who": k}
+    S = lambda *w: {"op": "status", "working": list(w)}
+    # two pool instances on one store request the same metrics, then the status changes
+    yield {"pool": [5, 8], "init": init, "consumers": 2,
+           "script": [S(5, 8), R("soc", 0), R("capacity", 0), R("soc", 1), R("capacity", 1), S(5), S()]}
+    # component data stamped in aware non-UTC zones; data and status change after the first samples
+    for tz in (["offset", 120], ["offset", -300], ["zone", "Asia/Kolkata"]):
+        yield {"pool": [5, 8], "init": init, "tz": tz,
+               "script": [S(5, 8), R("soc", 0), R("capacity", 0), {"op": "data", "id": 5, "d": D(1000, 10, 90, 70)}, S(5)]}
+
+
+def _pool_boundary_cases0():
     D = lambda cap, lo, hi, soc: {"cap": enc(F(cap)), "lo": enc(F(lo)), "hi": enc(F(hi)), "soc": enc(F(soc))}
     init = {"5": D(1000, 10, 90, 50), "8": D(3000, 10, 90, 90)}
     R = lambda w: {"op": "request", "what": w}
@@ -895,7 +948,9 @@ class PoolIntegrationStream(Stream):
         items = []
         for _, snap, got in self._pairs(case, obs):
             f = lambda w: f"(Some {copt(fr(got[w]), cQ)})" if w in got else "None"
-            items.append(f"({c_bats(snap['bats'])}, {f('soc')}, {f('capacity')})")
+            for who in range(case.get("consumers", 1)):
+                if f"soc@{who}" in got or f"capacity@{who}" in got or who == 0:
+                    items.append(f"({c_bats(snap['bats'])}, {f(f'soc@{who}')}, {f(f'capacity@{who}')})")
         return "[" + "; ".join(items) + "]"
 
     def oracle(self, case, obs):
@@ -906,14 +961,17 @@ class PoolIntegrationStream(Stream):
             bats = snap["bats"]
             if set(got) != set(snap["requested"]):
                 out.append({"what": f"pool: step {i}: streams observed {sorted(got)} but requested {snap['requested']}", "finding": None})
-            if "capacity" in got:
-                doc = sum((fr(b["cap"]) * (fr(b["hi"]) - fr(b["lo"])) / 100 for b in bats if q_cap(b)), F(0)) if any(q_cap(b) for b in bats) else None
-                if fr(got["capacity"]) != doc:
-                    out.append({"what": f"pool: after step {i} ({case['script'][i]}) the capacity stream's latest value is "
-                                        f"{fr(got['capacity'])}, the documented aggregate of the batteries working and reporting at "
-                                        f"that time {[b['id'] for b in bats if q_cap(b)]} is {doc}", "finding": None})
-            if "soc" in got:
-                soc = fr(got["soc"])
+            for key in sorted(got):
+                what, who = key.split("@")
+                tag = f"pool: after step {i} ({case['script'][i]}) consumer {who}'s"
+                if what == "capacity":
+                    doc = sum((fr(b["cap"]) * (fr(b["hi"]) - fr(b["lo"])) / 100 for b in bats if q_cap(b)), F(0)) if any(q_cap(b) for b in bats) else None
+                    if fr(got[key]) != doc:
+                        out.append({"what": f"{tag} capacity stream's latest value is {fr(got[key])}, the documented aggregate of the "
+                                            f"batteries working and reporting at that time {[b['id'] for b in bats if q_cap(b)]} is {doc}",
+                                    "finding": None})
+                    continue
+                soc = fr(got[key])
                 quals = [b for b in bats if q_soc(b)]
                 if not quals:
                     doc, ok = None, soc is None
@@ -927,9 +985,8 @@ class PoolIntegrationStream(Stream):
                         doc = used / total
                         ok = soc is not None and (soc == doc or (soc == 100 and isclose_q(doc, F(100))))
                 if not ok:
-                    out.append({"what": f"pool: after step {i} ({case['script'][i]}) the SoC stream's latest value is {soc}, the "
-                                        f"documented aggregate of the batteries working and reporting at that time "
-                                        f"{[b['id'] for b in quals]} is {doc}", "finding": None})
+                    out.append({"what": f"{tag} SoC stream's latest value is {soc}, the documented aggregate of the batteries working "
+                                        f"and reporting at that time {[b['id'] for b in quals]} is {doc}", "finding": None})
         return out
 
     def show_term(self, case, obs):
@@ -974,7 +1031,14 @@ class PoolIntegrationStream(Stream):
         if any(d == "nan" for v in case["init"].values() if v for d in v.values()) or any(
                 d == "nan" for o in sc if o["op"] == "data" for d in o["d"].values()):
             out.append("nan_metric")
-        if any(cp.get("soc") == ["none-yet"] or cp.get("capacity") == ["none-yet"] for cp in obs["checkpoints"]):
+        out.append(f"consumers={case.get('consumers', 1)}")
+        tzs = case.get("tz")
+        out.append("timestamps=utc_2020" if tzs is None else (f"timestamps={tzs[1]}" if tzs[0] == "zone" else
+                                                              f"timestamps=offset_{'east' if tzs[1] > 0 else 'west'}"))
+        reqs = [(o["what"], o.get("who", 0)) for o in sc if o["op"] == "request"]
+        if any(a[0] == b[0] and a[1] != b[1] for a in reqs for b in reqs):
+            out.append("same_metric_requested_by_two_consumers")
+        if any(v == ["none-yet"] for cp in obs["checkpoints"] for v in cp.values()):
             out.append("nothing_emitted_yet_at_some_checkpoint")
         return out
 
@@ -991,9 +1055,11 @@ class PoolIntegrationStream(Stream):
                         yield {**case, "script": sc[:i] + [{**o, "ops": o["ops"][:j] + o["ops"][j + 1:]}] + sc[i + 1:]}
         if case.get("producer", "fresh") == "tracker":
             yield {**case, "producer": "mutate"}
+        if case.get("tz") is not None and case["tz"][0] == "zone":
+            yield {**case, "tz": ["offset", 120]}
         for b in case["pool"]:
             if len(case["pool"]) > 1:
-                yield {"producer": case.get("producer", "fresh"), "pool": [x for x in case["pool"] if x != b],
+                yield {**case, "pool": [x for x in case["pool"] if x != b],
                        "init": {k: v for k, v in case["init"].items() if int(k) != b},
                        "script": [({**o, "working": [x for x in o["working"] if x != b],
                                     **({"uncertain": [x for x in o["uncertain"] if x != b]} if "uncertain" in o else {})}
